@@ -1,4 +1,5 @@
 import Adlt.Dlt.Spec
+import Adlt.Dlt.Fast
 import Adlt.Util.Parse
 /-! Line-protocol glue for the DLT framing / write model.
     case:  `<i0> <s|d> <n|b> <item>;<item>…`   item = `g:<hex>` | `m:<shhex>,<htyp>,<mcnt>,<addhex>,<payloadhex>`
@@ -99,5 +100,32 @@ def doLine (line : String) : String :=
   let mobs := modelObs c
   let oi := if impl == "" then "-" else oracleOn c impl
   s!"{mobs}\t{oi}\t{oracleOn c mobs}\t{branches c}"
+
+/-! ### C04 chunking: the iterator over a low-mark buffered reader with short reads vs the parse of the whole byte string -/
+
+def hashBytes (l : Bytes) : Nat := l.foldl (fun h b => (h * 31 + b.toNat + 1) % 4294967291) 7
+
+def showMsgShort (m : Msg) : String :=
+  s!"{m.index},{m.recvUs},{hexOf m.ecu},{m.tsDms},{m.std.htyp.toNat},{m.std.len},{m.payload.length},{hashBytes m.payload}"
+
+def doLineLw (line : String) : String :=
+  let (cs, impl) := match line.splitOn "\t" with
+    | [c, i] => (c, i)
+    | [c] => (c, "")
+    | _ => ("", "")
+  match cs.splitOn " | " with
+  | [_cfg, dpc] =>
+    let c := parseCase dpc
+    let (ms, s) := runModel c
+    let mobs := " ".intercalate (ms.map showMsgShort) ++ s!" | {s.index} {s.processed} {s.skipped} {b2s s.detStorage} {b2s s.detSerial}"
+    -- the property *is* the correspondence here: whatever the chunking, the implementation must find what the
+    -- whole-buffer parse finds
+    let oi := if impl == "" then "-" else if impl == mobs then "C04=ok" else if impl == "PANIC" then "C04=FAIL:panic" else "C04=FAIL:chunked-differs-from-whole"
+    let tags : List String :=
+      (if ms.length > 1 then ["multi"] else []) ++ (if s.skipped > 0 then ["skipped"] else []) ++
+      (if ms.any (fun m => m.payload.length > 60000) then ["max-size-msg"] else []) ++
+      (if (render c.serial c.items).length > 70000 then ["needs-refill"] else []) ++ (if c.serial then ["serial"] else [])
+    s!"{mobs}\t{oi}\tC04=ok\t{",".intercalate tags}"
+  | _ => "bad\tC04=FAIL:unparsable\tC04=ok\t"
 
 end Dp
